@@ -81,6 +81,20 @@ Theorem C19_zero_all_required_succeeded :
     /\ draining = false /\ mt = 0 /\ md = 0 /\ gw = 0 /\ ge = 0.
 Proof. exact zero_all_required_succeeded. Qed.
 
+(* A whole director run (watch mode: several phases): the exit status is the one of the LAST phase
+   that was finalized, whatever earlier phases returned (bits are not accumulated), so the first
+   sentence holds of it with `i` the inputs of that phase; a run in which no phase was finalized
+   (stopped before the first resume) exits with the field's default PENDING, never with 0. *)
+Theorem C19_exit_status_is_last_phase :
+  (forall inv phases i, serve_phases inv (phases ++ [i]) = serve_rc inv i) /\
+  (forall inv phases i, exit_status_as_stated inv i ->
+     has_bit (serve_phases inv (phases ++ [i])) rc_FAILED = has_bit (serve_rc inv i) rc_FAILED) /\
+  serve_phases false [] = rc_PENDING /\ serve_phases false [] <> 0.
+Proof.
+  split; [exact serve_phases_last|]. split; [|exact serve_no_phase_not_zero].
+  intros inv phases i _. rewrite serve_phases_last. reflexivity.
+Qed.
+
 (* The hand-written guard chain is the one regenerated from finalize.py on this run. *)
 Theorem C19_guard_chain_is_generated :
   forall i, report_unbuilt i = report_unbuilt_gen i.
